@@ -136,7 +136,8 @@ def _arg(a):
 
 
 def unit_expr(u, gen=True):
-    '''the Gallina term of a unit: generated definition (gen) or hand-written model'''
+    '''the Gallina term of a unit: generated definition (gen; nested triggers run
+    the generated machine StateGen.gen_trigger) or hand-written model'''
     f, S = u['f'], _state(u)
     k = KCOQ.get(u.get('k'))
     G = 'StateGen.'
@@ -149,15 +150,15 @@ def unit_expr(u, gen=True):
             'save_prior_state': 'robs (%ssave_prior_state %s)' % (G, S),
             'set_submit_info': 'sobs (%sset_submit_info %s %s)' % (G, S, _arg(u.get('arg'))),
             'wait_for': 'sobs (%swait_for_%s %s)' % (G, u.get('k'), S),
-            'wait_for_nothing': 'robs (%swait_for_nothing trigger_ %s)' % (G, S),
-            'submit_crossroads': 'robs (%ssubmit_crossroads trigger_ %s)' % (G, S),
-            'done': 'robs (%sdone_%s trigger_ %s)' % (G, u.get('k'), S),
+            'wait_for_nothing': 'robs (%swait_for_nothing StateGen.gen_trigger %s)' % (G, S),
+            'submit_crossroads': 'robs (%ssubmit_crossroads StateGen.gen_trigger %s)' % (G, S),
+            'done': 'robs (%sdone_%s StateGen.gen_trigger %s)' % (G, u.get('k'), S),
             'poll': G + 'is_%s_done_continues %s (%s)' % (u.get('k'), S, ', '.join(_b(x) for x in u.get('env', []))),
-            'load_done': 'robs (%sload_done trigger_ %s)' % (G, S),
-            'reload_done': 'robs (%sreload_done trigger_ %s)' % (G, S),
-            '_navel_gaze': 'robs (%snavel_gaze_body trigger_ %s)' % (G, S),
-            '_archive_done': 'robs (%sarchive_done trigger_ %s)' % (G, S),
-            'archive': 'robs (%sarchive trigger_ %s)' % (G, S),
+            'load_done': 'robs (%sload_done StateGen.gen_trigger %s)' % (G, S),
+            'reload_done': 'robs (%sreload_done StateGen.gen_trigger %s)' % (G, S),
+            '_navel_gaze': 'robs (%snavel_gaze_body StateGen.gen_trigger %s)' % (G, S),
+            '_archive_done': 'robs (%sarchive_done StateGen.gen_trigger %s)' % (G, S),
+            'archive': 'robs (%sarchive StateGen.gen_trigger %s)' % (G, S),
             'start': 'robs (%sstart %s)' % (G, S),
             'load': 'robs (%sload %s)' % (G, S),
             'navel_gaze': 'robs (%snavel_gaze %s)' % (G, S),
